@@ -2890,9 +2890,6 @@ class PlateSlicer(Slicer):
 
         if frm.size == 1:
             # Source from the single element in frm
-            if frm.shape != (1, 1):
-                raise RuntimeError("Shape of source should have been (1, 1)")
-
             def helper_func(elem):
                 """ @private """
                 assert isinstance(frm_array, numpy.ndarray)
@@ -2905,14 +2902,13 @@ class PlateSlicer(Slicer):
 
                 return elem
 
-            frm_array = frm.get()
+            # (a one-element list of wells is a single well too; its get() is a copy, so it is written back)
+            frm_array = frm.get().reshape(1, 1)
             to.apply(helper_func)
+            frm.set(frm_array.reshape(frm.shape))
 
         elif to.size == 1:
             #  Replace the single element in self
-            if to.shape != (1, 1):
-                raise RuntimeError("Shape of source should have been (1, 1)")
-
             def helper_func(elem):
                 """ @private """
                 elem, to_array[0][0] = Container.transfer(elem, to_array[0][0], quantity)
@@ -2922,8 +2918,9 @@ class PlateSlicer(Slicer):
                     to_array[0][0].instructions = "\n".join(instructions)
                 return elem
 
-            to_array = to.get()
+            to_array = to.get().reshape(1, 1)
             frm.apply(helper_func)
+            to.set(to_array.reshape(to.shape))
 
         elif frm.size == to.size and frm.shape == to.shape:
             def helper(elem1, elem2):
